@@ -1000,6 +1000,13 @@ pub fn gen_c02(c: &mut Ctx) {
             }
         }
     }
+    // the successor of the all-ones table and of its neighbours, every size and type (seed C02-i:
+    // a roll-back mask wrong at exactly n = 5)
+    for n in 0..=12usize {
+        for ty in types_for(n) {
+            p!(c, "hist {} {} one,0 next,1,0 next,2,1 not,3,0 next,3,3", ty, n);
+        }
+    }
     let per_n = if c.thorough { 120 } else { 24 };
     for n in 0..=12usize {
         for ty in types_for(n) {
@@ -1172,6 +1179,27 @@ pub fn gen_c12(c: &mut Ctx) {
                 }
             }
             p!(c, "cube cmp {} {}", sc((p0, q0)), sc((p0, q0)));
+        }
+        c.leave(saved);
+    }
+    // literal and gate counts at the top of the range: cubes with 30, 31 and 32 literals (seed
+    // C12-j: a count threshold that takes a 32-literal cube for the contradictory one)
+    {
+        let saved = c.enter("C12-fullcubes");
+        for k in 0..(if c.thorough { 40 } else { 10 }) {
+            let p0 = c.rng.next() as u32;
+            let q0 = !p0;
+            p!(c, "cube info {}", sc((p0, q0)));
+            p!(c, "cube display {}", sc((p0, q0)));
+            let drop = 1u32 << c.rng.below(32);
+            p!(c, "cube info {}", sc((p0 & !drop, q0 & !drop)));
+            let drop2 = drop | (1u32 << c.rng.below(32));
+            p!(c, "cube info {}", sc((p0 & !drop2, q0 & !drop2)));
+            p!(c, "cube minterm 32 {:x}", p0);
+            if k == 0 {
+                p!(c, "cube info {}", sc((!0u32, 0)));
+                p!(c, "cube info {}", sc((0, !0u32)));
+            }
         }
         c.leave(saved);
     }
